@@ -296,9 +296,6 @@ func sortDedup(es []Entry) []Entry {
 	sort.SliceStable(ks, func(i, j int) bool { return bytes.Compare(ks[i].k, ks[j].k) < 0 })
 	out := es[:0]
 	for i := range ks {
-		if len(ks[i].k) == 0 {
-			continue // the empty key is outside the domain (see DESIGN 4.1)
-		}
 		if i > 0 && bytes.Equal(ks[i].k, ks[i-1].k) {
 			continue
 		}
@@ -355,6 +352,9 @@ func (tg Target) bytes(rows []row) []byte {
 	case "succ":
 		return append(append([]byte{}, k...), 0x00)
 	case "pred":
+		if len(k) == 0 {
+			return []byte{} // the empty key has no predecessor
+		}
 		last := k[len(k)-1]
 		if last == 0 {
 			return append([]byte{}, k[:len(k)-1]...)
@@ -363,6 +363,9 @@ func (tg Target) bytes(rows []row) []byte {
 	case "half":
 		return append([]byte{}, k[:len(k)/2]...)
 	case "inc":
+		if len(k) == 0 {
+			return []byte{0x00}
+		}
 		last := k[len(k)-1]
 		if last == 0xff {
 			return append(append([]byte{}, k...), 0x01)
